@@ -55,6 +55,9 @@ ATOMS: dict[str, Callable[[ConnWorld], bytes]] = {
     "ST": lambda w: w.dframe(mk("SensorStateResponse", key=7, state=1.5)),
     "DI": lambda w: w.dframe(mk("DeviceInfoResponse", name="dev")),
     "UK": lambda w: _raw(w, 9999, b"xx"),
+    # undefined types whose low byte is the id of DisconnectRequest / PingRequest (a frame helper that loses the high byte would alias them)
+    "UKD": lambda w: _raw(w, 256 + msg_id("DisconnectRequest"), b""),
+    "UKP": lambda w: _raw(w, 512 + msg_id("PingRequest"), b""),
     "BAD": lambda w: _raw(w, msg_id("SensorStateResponse"), b"\xff\xff\xff"),
     # framing-level garbage
     "PRE": lambda w: b"\x02garbage" if not w.noise else b"\x00\x00\x01x",
@@ -67,7 +70,7 @@ ATOMS: dict[str, Callable[[ConnWorld], bytes]] = {
     "TAMPER": lambda w: _tamper(w),
 }
 NOISE_ONLY = {"NH", "NHELLO", "NSHAKE", "NHE", "TAMPER"}
-NEEDS_HANDSHAKE_DONE = {"H", "C", "BV", "BN", "BP", "DR", "DRESP", "PR", "PRESP", "ST", "DI", "UK", "BAD", "TAMPER"}
+NEEDS_HANDSHAKE_DONE = {"H", "C", "BV", "BN", "BP", "DR", "DRESP", "PR", "PRESP", "ST", "DI", "UK", "UKD", "UKP", "BAD", "TAMPER"}
 PLAIN_ONLY = {"ENC"}
 
 
